@@ -6,3 +6,8 @@ func (m *Mapper) VerifWiredTo(i, o, p, c, s, t, a interface{}) bool {
 	return interface{}(m.interrupts) == i && interface{}(m.oam) == o && interface{}(m.ppu) == p && interface{}(m.controller) == c &&
 		interface{}(m.serial) == s && interface{}(m.timer) == t && interface{}(m.audio) == a
 }
+
+// VerifParts: the components this mapper is wired to, in a fixed order
+func (m *Mapper) VerifParts() []interface{} {
+	return []interface{}{m.interrupts, m.oam, m.ppu, m.controller, m.serial, m.timer, m.audio}
+}
